@@ -85,6 +85,20 @@ func (s *HTTPMessageSignatures) init() error {
 			"failed loading keystore for http_message_signatures strategy").CausedBy(err)
 	}
 
+	if len(ks.Entries()) == 0 {
+		return errorchain.NewWithMessage(heimdall.ErrConfiguration,
+			"no key material present in the key store for http_message_signatures strategy")
+	}
+
+	// all keys are published (see Keys()). So all of them must be of a supported type and size
+	for _, entry := range ks.Entries() {
+		if !isSupportedForSigning(entry) {
+			return errorchain.NewWithMessagef(heimdall.ErrConfiguration,
+				"key with id '%s' has an unsupported type or size (%s, %d bit) for http_message_signatures strategy",
+				entry.KeyID, entry.Alg, entry.KeySize)
+		}
+	}
+
 	var kse *keystore.Entry
 
 	if len(s.Signer.KeyID) == 0 {
@@ -202,6 +216,18 @@ func (s *HTTPMessageSignatures) Certificates() []*x509.Certificate {
 	return s.certChain
 }
 
+// isSupportedForSigning reports whether a signature algorithm is defined for the type and the size of the given key.
+func isSupportedForSigning(entry *keystore.Entry) bool {
+	switch entry.Alg {
+	case keystore.AlgRSA:
+		return entry.KeySize == 2048 || entry.KeySize == 3072 || entry.KeySize == 4096 //nolint:mnd
+	case keystore.AlgECDSA:
+		return entry.KeySize == 256 || entry.KeySize == 384 || entry.KeySize == 512 || entry.KeySize == 521 //nolint:mnd
+	default:
+		return false
+	}
+}
+
 func toHTTPSigKey(entry *keystore.Entry) httpsig.Key {
 	var httpSigAlg httpsig.SignatureAlgorithm
 
@@ -227,7 +253,8 @@ func getECDSAAlgorithm(keySize int) httpsig.SignatureAlgorithm {
 		return httpsig.EcdsaP256Sha256
 	case 384: //nolint: mnd
 		return httpsig.EcdsaP384Sha384
-	case 512: //nolint: mnd
+	case 512, 521: //nolint: mnd
+		// the size of a P-521 key is 521 bit
 		return httpsig.EcdsaP521Sha512
 	default:
 		panic(fmt.Sprintf("unsupported ECDSA key size: %d", keySize))
